@@ -876,7 +876,8 @@ def run(ctx):
     log = Log(ctx, 1500 if ctx.quick else 20000)
     cases = gen(ctx, 'MC_Algebra', 'MC_Algebra_gen.cfg' if ctx.quick else 'MC_Algebra_gent.cfg')   # all three families in one TLC run
     s2c_ulist(ctx, log, [c for c in cases if c['op'] == 'ulist'])
-    s2c_map(ctx, log, [c for c in cases if c['op'] == 'map'])
+    s2c_map(ctx, log, [c for c in cases if c['op'] == 'map' and c['arg'][0] != 'path'])
+    s2c_map(ctx, log, [c for c in cases if c['op'] == 'map' and c['arg'][0] == 'path'])      # (apart: the class rotation of the other cases stays what it was)
     s2c_call(ctx, log, [c for c in cases if c['op'] == 'call'])
     # sessions: histories call ; edit by the owner / of the result ; call on the SAME objects, enumerated by TLC (the invariants
     # of MC_AlgebraSes are checked in the same run); thorough: also TLC-simulated free sessions of 7 steps and the two
